@@ -494,12 +494,12 @@ def generate_tables(sites) -> bool:
     after executing the real registration (default switches) on a recording processor."""
     line2idx = {}
     for i, s in enumerate(sites):
-        line2idx.setdefault(s["line"], i)
+        line2idx.setdefault((s["name"], s["line"]), i)
     rec = live_registration([])
     sort_ctxs = []
     for name, line, ctx, _kw in rec:
         if name == "sort_events":
-            idx = line2idx.get(line)
+            idx = line2idx.get((name, line))
             if idx is None:
                 raise ShapeNotRecognised(f"sort_events registered from line {line} which is not a translated site")
             keys = ", ".join(f"({lean_str(k)}, {int(r)})" for k, r in ctx.sortkey)
